@@ -1589,6 +1589,10 @@ func (a *Authenticator) negotiateSecurity(negotiation *SecurityNegotiation) erro
 	// Find compatible authentication method - server preference order
 	negotiation.NegotiatedAuth = AuthNone
 	for _, serverAuth := range negotiation.ServerConfig.AuthMethods {
+		if !serverAuth.Implemented() {
+			// A method whose handshake cannot run is not a mutually usable method.
+			continue
+		}
 		for _, clientAuth := range negotiation.ClientConfig.AuthMethods {
 			if serverAuth == clientAuth {
 				negotiation.NegotiatedAuth = serverAuth
